@@ -144,7 +144,19 @@ def replay(path):
     return ctlcheck.replay(data, path)
 
 
+def private_java_tmpdir():
+    """TLC / SANY leave a temporary directory per run in java.io.tmpdir (/tmp by default): give every check invocation a directory
+    of its own under .work and remove it at exit (inherited by all tlc / apalache child processes through JAVA_TOOL_OPTIONS)."""
+    import atexit
+    import shutil
+    d = os.path.join(common.WORK, "jtmp", str(os.getpid()))
+    os.makedirs(d, exist_ok=True)
+    os.environ["JAVA_TOOL_OPTIONS"] = (os.environ.get("JAVA_TOOL_OPTIONS", "") + " -Djava.io.tmpdir=" + d).strip()
+    atexit.register(shutil.rmtree, d, True)
+
+
 def main():
+    private_java_tmpdir()
     ap = argparse.ArgumentParser()
     ap.add_argument("pid", nargs="?")
     ap.add_argument("--tier", default=os.environ.get("VERIF_TIER", "quick"))
